@@ -9,6 +9,7 @@
 package main
 
 import (
+	"runtime/pprof"
 	"bufio"
 	"context"
 	"encoding/json"
@@ -40,9 +41,173 @@ type cell struct {
 	Arg  string `json:"arg"`
 	Path string `json:"path"`
 	Doc  string `json:"doc"`
+	// the options grid
+	Upsert bool   `json:"upsert"`
+	Match  string `json:"match"`
+	After  bool   `json:"after"`
+	Proj   string `json:"proj"`
+	Sort   string `json:"sort"`
+	Txn    bool   `json:"txn"`
+}
+
+// optionsCell runs one cell of the options grid: the call with exactly this combination of options on a small
+// collection, inside a session transaction (committed afterwards) or on its own.
+func optionsCell(client lungo.IClient, c cell) {
+	coll := client.Database("r").Collection("o")
+	coll.Drop(ctx)
+	if c.Match != "nocoll" {
+		coll.InsertMany(ctx, []interface{}{
+			d("_id", int32(1), "a", int32(1), "b", bson.A{int32(1), int32(2), int32(3)}, "c", bson.A{d("x", int32(1)), d("x", int32(2))}),
+			d("_id", int32(2), "a", int32(2), "b", bson.A{}, "c", "s"),
+			d("_id", int32(3), "a", int32(2)),
+		})
+		if c.Match == "emptycoll" {
+			coll.DeleteMany(ctx, bson.D{})
+		}
+	}
+	var q bson.D
+	switch c.Match {
+	case "one":
+		q = d("_id", int32(1))
+	case "none":
+		q = d("_id", int32(99))
+	default:
+		q = bson.D{}
+	}
+	var pr, so interface{}
+	switch c.Proj {
+	case "incl":
+		pr = d("a", int32(1))
+	case "excl":
+		pr = d("a", int32(0))
+	case "idonly":
+		pr = d("_id", int32(1))
+	case "noid":
+		pr = d("_id", int32(0), "a", int32(1))
+	case "slice":
+		pr = d("b", d("$slice", int32(1)))
+	case "elem":
+		pr = d("c", d("$elemMatch", d("x", int32(2))), "b", d("$slice", bson.A{int32(1), int32(1)}))
+	case "mixed":
+		pr = d("a", int32(1), "b", int32(0))
+	}
+	switch c.Sort {
+	case "asc":
+		so = d("a", int32(1))
+	case "desc":
+		so = d("a", int32(-1), "_id", int32(-1))
+	case "bad":
+		so = d("a", "up")
+	}
+	rd := options.Before
+	if c.After {
+		rd = options.After
+	}
+	run := func(cx context.Context) {
+		switch c.Op {
+		case "findOneAndUpdate":
+			o := options.FindOneAndUpdate().SetUpsert(c.Upsert).SetReturnDocument(rd)
+			if pr != nil {
+				o.SetProjection(pr)
+			}
+			if so != nil {
+				o.SetSort(so)
+			}
+			var out bson.D
+			coll.FindOneAndUpdate(cx, q, d("$inc", d("a", int32(1))), o).Decode(&out)
+		case "findOneAndReplace":
+			o := options.FindOneAndReplace().SetUpsert(c.Upsert).SetReturnDocument(rd)
+			if pr != nil {
+				o.SetProjection(pr)
+			}
+			if so != nil {
+				o.SetSort(so)
+			}
+			var out bson.D
+			coll.FindOneAndReplace(cx, q, d("a", int32(7)), o).Decode(&out)
+		case "findOneAndDelete":
+			o := options.FindOneAndDelete()
+			if pr != nil {
+				o.SetProjection(pr)
+			}
+			if so != nil {
+				o.SetSort(so)
+			}
+			var out bson.D
+			coll.FindOneAndDelete(cx, q, o).Decode(&out)
+		case "updateOne":
+			coll.UpdateOne(cx, q, d("$inc", d("a", int32(1))), options.Update().SetUpsert(c.Upsert))
+		case "updateMany":
+			coll.UpdateMany(cx, q, d("$inc", d("a", int32(1))), options.Update().SetUpsert(c.Upsert))
+		case "replaceOne":
+			coll.ReplaceOne(cx, q, d("a", int32(7)), options.Replace().SetUpsert(c.Upsert))
+		case "deleteOne":
+			coll.DeleteOne(cx, q)
+		case "find":
+			o := options.Find()
+			if pr != nil {
+				o.SetProjection(pr)
+			}
+			if so != nil {
+				o.SetSort(so)
+			}
+			if c.After {
+				o.SetSkip(1).SetLimit(1)
+			}
+			if cur, err := coll.Find(cx, q, o); err == nil {
+				for cur.Next(cx) {
+				}
+				cur.Close(cx)
+			}
+		case "findOne":
+			o := options.FindOne()
+			if pr != nil {
+				o.SetProjection(pr)
+			}
+			if so != nil {
+				o.SetSort(so)
+			}
+			if c.After {
+				o.SetSkip(1)
+			}
+			var out bson.D
+			coll.FindOne(cx, q, o).Decode(&out)
+		case "distinct":
+			coll.Distinct(cx, map[bool]string{false: "a", true: "c.x"}[c.After], q)
+		case "count":
+			o := options.Count()
+			if c.After {
+				o.SetSkip(1).SetLimit(1)
+			}
+			coll.CountDocuments(cx, q, o)
+		case "bulkWrite":
+			coll.BulkWrite(cx, []mongo.WriteModel{
+				mongo.NewUpdateOneModel().SetFilter(q).SetUpdate(d("$inc", d("a", int32(1)))).SetUpsert(c.Upsert),
+				mongo.NewReplaceOneModel().SetFilter(q).SetReplacement(d("a", int32(7))).SetUpsert(c.Upsert),
+				mongo.NewUpdateManyModel().SetFilter(q).SetUpdate(d("$set", d("z", int32(1)))).SetUpsert(c.Upsert),
+				mongo.NewDeleteOneModel().SetFilter(q),
+				mongo.NewInsertOneModel().SetDocument(d("_id", int32(1))),
+			}, options.BulkWrite().SetOrdered(c.After))
+		}
+	}
+	if !c.Txn {
+		run(ctx)
+		return
+	}
+	client.UseSession(ctx, func(sc lungo.ISessionContext) error {
+		if err := sc.StartTransaction(); err != nil {
+			return err
+		}
+		run(sc)
+		if c.After {
+			return sc.CommitTransaction(sc)
+		}
+		return sc.AbortTransaction(sc)
+	})
 }
 
 var out = json.NewEncoder(os.Stdout)
+var ctx = context.Background()
 var panics, calls, driverCalls int
 var current atomic.Value // description of the running call (for the watchdog)
 var seen = map[string]int{}
@@ -251,8 +416,13 @@ func main() {
 		every = 1
 	}
 	seed, _ := strconv.Atoi(os.Args[3])
+	if pf := os.Getenv("C20_PROF"); pf != "" {
+		f, _ := os.Create(pf)
+		pprof.StartCPUProfile(f)
+		defer pprof.StopCPUProfile()
+	}
 	ctx := context.Background()
-	client, engine, err := lungo.Open(ctx, lungo.Options{Store: lungo.NewMemoryStore()})
+	client, engine, err := lungo.Open(ctx, lungo.Options{Store: lungo.NewMemoryStore(), MinOplogSize: 2, MaxOplogSize: 8, MinOplogAge: time.Millisecond}) // a short change log keeps the per-write cost of the grid low
 	if err != nil {
 		util.Die("open: %v", err)
 	}
@@ -291,6 +461,15 @@ func main() {
 			continue
 		}
 		cells++
+		if c.Fam == "options" {
+			cover[c.Fam+":"+c.Op+":"+c.Match+":"+c.Proj] = true
+			driverCalls++
+			guard(c.Op+" (options grid)", c, func() { optionsCell(client, c) })
+			if driverCalls%400 == 0 {
+				probe(fmt.Sprintf("after cell %+v", c))
+			}
+			continue
+		}
 		cover[c.Fam+":"+c.Op+":"+c.Arg] = true
 		a, p, dc := arg(c.Arg), path(c.Path), doc(c.Doc)
 		n++
